@@ -96,12 +96,26 @@ def main():
         for hid, k in enumerate(keys):
             ns["visit_" + k] = (lambda self, node, hid=hid: calls.append((hid, node)) or ("R", hid))
         # handlers may live in the class itself, in a base visitor class, in a mixin, or two levels up
-        shape = rng.randrange(4)
+        shape = rng.randrange(5)
+        # ancestors may have been instantiated (and used) BEFORE the visitor class at hand is first used: anything a visitor
+        # remembers per class must not be inherited by a subclass that adds handlers
+        warm = rng.random() < 0.5
+        if warm and rng.random() < 0.5:
+            P.NodeVisitor().visit(P.Node("warm-up", P.LiteralNode("w", 0, 1)))
         if shape == 0 or not ns:
             V = type("V", (P.NodeVisitor,), ns)
         elif shape == 1:
             Base = type("BaseV", (P.NodeVisitor,), ns)
+            if warm:
+                Base().visit(P.Node("warm-up"))
             V = type("V", (Base,), {})
+        elif shape == 4:
+            items = list(ns.items())
+            half = len(items) // 2
+            Base = type("BaseV", (P.NodeVisitor,), dict(items[:half]))
+            if warm:
+                Base().visit(P.Node(variant, P.LiteralNode("x", 0, 1)))
+            V = type("V", (Base,), dict(items[half:]))
         elif shape == 2:
             items = list(ns.items())
             half = len(items) // 2
@@ -110,11 +124,27 @@ def main():
         else:
             items = list(ns.items())
             Top = type("TopV", (P.NodeVisitor,), dict(items[::2]))
+            if warm:
+                Top().visit(P.Node(variant))
             Mid = type("MidV", (Top,), dict(items[1::2]))
+            if warm and rng.random() < 0.5:
+                Mid()
             V = type("V", (Mid,), {})
         stats["hierarchy_shape_%d" % shape] = stats.get("hierarchy_shape_%d" % shape, 0) + 1
+        calls.clear()
         v = V()
-        node = P.Node(variant, P.LiteralNode("x", 0, 1)) if rng.random() < 0.85 else P.LiteralNode("x", 0, 1)
+        # node shapes: a rule node with one leaf, with NO children (a rule that matched the empty string), with several
+        # children, and a literal leaf
+        r = rng.random()
+        if r < 0.5:
+            node = P.Node(variant, P.LiteralNode("x", 0, 1))
+        elif r < 0.7:
+            node = P.Node(variant)
+            stats["childless_rule_nodes"] = stats.get("childless_rule_nodes", 0) + 1
+        elif r < 0.85:
+            node = P.Node(variant, P.Node("inner"), P.LiteralNode("", 1, 0), P.Node("inner", P.LiteralNode("y", 1, 1)))
+        else:
+            node = P.LiteralNode("x", 0, 1)
         if isinstance(node, P.LiteralNode):
             stats["leaf_dispatch"] += 1
         try:
